@@ -111,7 +111,8 @@ Section Subst.
         | Some (RArr a dims lbs) => EIdx a (merge_dims dims lbs ks')
         | Some (RSem a dims) => EIdx a (merge_sem dims ks')
         | Some (RVar y) => EIdx y ks'
-        | Some _ => EIdx x ks'
+        | Some (RElem a _) => EIdx a ks'     (* no Range in the actual: the local indices are used *)
+        | Some (RExpr e') => e'              (* not meaningful Fortran *)
         | None => EIdx (rename ren x) ks'
         end
     | EUn o e1 => EUn o (subst_e e1)
@@ -249,17 +250,21 @@ Definition accept_impl (c : callsite) : bool :=
 (** * SymbolTable.merge: the contract of the renaming it decides
    [ren] lists (local, name it has after the merge) in symbol-table order.  A local is renamed
    exactly when its name is already in the table merged into ([own], growing); the new name is
-   outside every scope of the caller and outside the callee's table. *)
-Fixpoint ren_ok_aux (own avoid : list name) (locals : list name) (ren : list (name * name)) : bool :=
+   outside every scope of the caller and outside the callee's table.
+   (A local that clashes only with an OUTER scope keeps its name in the unchanged code; the proposed
+   repair props/C07/fix.patch gives it a fresh name instead: the contract admits both, so that the
+   check works on either tree.) *)
+Fixpoint ren_ok_aux (outer own avoid : list name) (locals : list name) (ren : list (name * name)) : bool :=
   match locals, ren with
   | [], [] => true
   | l :: ls, (l', n) :: rs =>
-      Nat.eqb l l' && (if mem l own then negb (mem n avoid) else Nat.eqb n l)
-      && ren_ok_aux (n :: own) (n :: avoid) ls rs
+      Nat.eqb l l' && (if mem l own then negb (mem n avoid)
+                       else Nat.eqb n l || (mem l outer && negb (mem n avoid)))
+      && ren_ok_aux outer (n :: own) (n :: avoid) ls rs
   | _, _ => false
   end.
 Definition ren_ok (c : callsite) (ren : list (name * name)) : bool :=
-  ren_ok_aux (cs_own c) (cs_own c ++ cs_outer c ++ map fst (cs_locals c)) (map fst (cs_locals c)) ren.
+  ren_ok_aux (cs_outer c) (cs_own c) (cs_own c ++ cs_outer c ++ map fst (cs_locals c)) (map fst (cs_locals c)) ren.
 
 (** * The meaning of the call *)
 
@@ -396,10 +401,15 @@ Fixpoint stmts_eqb (l1 l2 : list stmt) : bool :=
    than the model, never laxer; when it accepts, the renaming obeys the merge contract and the tree
    is the model's. *)
 Definition corr_case := (callsite * list (name * name) * option (list stmt))%type.
+(* an empty routine (or one starting with RETURN): the call is removed and nothing is merged *)
+Definition trivial_body (c : callsite) : bool :=
+  match cs_body c with [] => true | SReturn :: _ => true | _ => false end.
 Definition corr_check (k : corr_case) : bool :=
   match k with
   | (c, ren, None) => true
-  | (c, ren, Some t) => accept_impl c && ren_ok c ren && stmts_eqb (inline_apply c ren) t
+  | (c, ren, Some t) =>
+      accept_impl c && (if trivial_body c then match ren with [] => true | _ => false end else ren_ok c ren)
+      && stmts_eqb (inline_apply c ren) t
   end.
 
 (* semantic cross-validation of [exec_call] against the harness's by-reference interpreter:
